@@ -198,6 +198,46 @@ PROPS["C10"] = {
 }
 
 
+CD_RUN = {"level": "cd", "args_quick": ["--n", "500"], "args_thorough": ["--n", "20000"]}
+
+PROPS["C19"] = {
+    "module": "PropC19",
+    "theorems": ["C19_threshold_is_a_cutoff", "C19_listed_iff_reaches", "C19_raising_only_removes", "C19_ordered_by_score",
+                 "C19_single_chunk", "C19_coherence_is_first_score"],
+    "model_targets": ["Model/Cd.vo"],
+    "runs": [CD_RUN, detect_run("C19", 150, 2500)],
+    "search": {"level": "cd", "args": ["--n", "8000"]},
+    "rule": "chunk-like texts (corpus slices, two corpus texts of different scripts glued, alphabet soups of one or two languages giving "
+            "several languages with close scores) x language thresholds {0, 0.05 ... 0.8, 0.81, 1} x include lists (none, [Unknown], "
+            "one language, several): cd::coherence_ratio (uncached) against Model/Cd.v with its three oracles served by the real "
+            "functions, bit for bit; on the implementation each text is swept over 8 thresholds: the list at threshold t must be "
+            "exactly the threshold-0 list cut at t (same scores), ordered by non-increasing score, and never gain a language; merge and "
+            "filter_alt on random lists (ties, NaN); non-trivial = texts with at least one language listed",
+    "assumptions": ["CmpLaws.law_oge_total is proved of the Flocq instance; FloatLaws.law_mean_single ((-0+x)/1 = x) is a hypothesis of C19_single_chunk",
+                    "alpha_unicode_split, alphabet_languages and characters_popularity_compare (jaro) are oracles"],
+    "trusted": [],
+}
+
+PROPS["C03"] = {
+    "module": "PropC03",
+    "theorems": ["C03_sorted_unique", "C03_unicode_ranges_order_independent", "C03_marks_order_independent",
+                 "C03_marks_keys_distinct", "C03_coherence_function_of_visited"],
+    "model_targets": ["Model/Cd.vo"],
+    "runs": [{"kind": "launches", "level": "launches", "launches_quick": 3, "launches_thorough": 16,
+              "args_quick": ["--extra", "300", "--rounds", "4"], "args_thorough": ["--extra", "3000", "--rounds", "32"]},
+             CD_RUN, detect_run("C03", 150, 2000)],
+    "search": None,
+    "rule": "the 428 corpus files + 300 generated multi-script texts (two or three corpus texts of different scripts glued) are detected in "
+            "3 fresh processes (each launch draws fresh ahash seeds), 4 times per process with the memo caches flushed in between (new map "
+            "instances get fresh keys): all signatures (matches in order, chaos / coherence bits, language lists, alternatives, BOM flags, "
+            "text hashes, unicode ranges) must be identical; plus the cd and detect correspondences, whose deterministic models must equal the code",
+    "assumptions": ["the hash function and the runtime are not modelled: an order-sensitive site inside code the models treat as an oracle "
+                    "(alpha_unicode_split internals, alphabet_languages) is caught only by the multi-launch comparison",
+                    "the CLI clause is covered by C16's runs of the built binary"],
+    "trusted": [],
+}
+
+
 def _tok(line):
     return line.split(" ")
 
